@@ -12,13 +12,13 @@ EXPLANATION = ('Corollary of contracts stated over the abstract view (blade -> c
                'creates one symbolic operand per key tuple with the caller\'s keys in the caller\'s order and _call_binary passes '
                'mv.values() in the same order, so the i-th symbol is bound to the i-th value whatever the order; (iii) L-pad: a '
                'stored zero contributes a zero term; (iv) fromkeysvalues/keys/values/items keep the representation as given.  '
-               'Bounded: metamorphic runs on the real package (permute / zero-pad / asfullmv in both layouts) for every operator.')
+               'Bounded: metamorphic runs on the real package (permute / zero-pad / full 2^d layout in canonical and in binary order, built directly) for every operator.')
 TRUSTED = ['z3 5.1 (python API)', 'kvc VC generator', 'CPython ast module']
 ASSUMPTIONS = [K.ASSUME_CPYTHON, K.ASSUME_RING, K.ASSUME_GRAMMAR, K.ASSUME_TAIL,
                'a finite sum in a commutative ring does not depend on the order of its terms',
                'lambdify keeps the positional pairing symbol i <-> value i (assumed; do_codegen and func_builder are under contract)',
                'composite operators (sw, proj, inv, div, sqrt, outer*) are built from the elementary operators on symbolic operands']
-ASSUMED = ['asfullmv: bounded stand-in only']
+ASSUMED = ['lambdify / KingdonPrinter: positional pairing of symbols and values in the generated function (sympy code generation)']
 
 
 def build(H, tier, seed):
@@ -56,7 +56,7 @@ def standins(tier, seed):
     # 5-D: code generation for inverses / sandwiches of 32-blade operands takes tens of minutes; linear and bilinear operators only
     heavy = {'inv', 'div', 'sw', 'proj', 'outerexp', 'outersin', 'outercos'}
     d_of = lambda c: c.get('p', 0) + c.get('q', 0) + c.get('r', 0)
-    return [{'name': f'storage#{i}', 'bound': 'seeded operand pairs per configuration; variants same / permuted / zero-padded+permuted / asfullmv(canonical) / asfullmv(binary) on either operand'
+    return [{'name': f'storage#{i}', 'bound': 'seeded operand pairs per configuration; variants same / permuted / zero-padded+permuted / full layout (canonical) / full layout (binary) on either operand'
                                               + ('; without ' + ', '.join(sorted(heavy)) if d_of(c) >= 5 else ''),
              'job': {'kind': 'storage', 'module': 'standins.jobs2', 'ops': [o for o in ops if d_of(c) < 5 or o not in heavy], 'configs': [c], 'seed': seed + i}}
             for i, c in enumerate(cfgs)]
